@@ -54,7 +54,7 @@ fn gap() -> impl Strategy<Value = u64> {
 fn op(bulk_weight: u32) -> impl Strategy<Value = Op> {
     prop_oneof![
         6 => gap().prop_map(|ms| Op::Gap { ms }),
-        8 => (prop::bool::weighted(0.3), 0u8..12, 0u8..3, 0u8..6, proptest::option::weighted(0.6, prop_oneof![1u16..4, any::<u16>()]))
+        8 => (prop::bool::weighted(0.3), 0u8..12, 0u8..3, 0u8..6, proptest::option::weighted(0.6, prop_oneof![3 => 1u16..4, 3 => any::<u16>(), 1 => Just(0u16), 1 => 2000u16..2003]))
             .prop_map(|(v6, ip, sport, hash, explicit)| Op::Announce { v6, ip, sport, hash, explicit }),
         bulk_weight => (prop::bool::weighted(0.3), prop_oneof![1u16..40, 200u16..600, 480u16..520], 0u16..3, 0u8..6)
             .prop_map(|(v6, k, base, hash)| Op::Bulk { v6, k, base: base * 300, hash }),
